@@ -277,6 +277,28 @@ func authOptions(a *authz, mode string) []engine.ExecutionOptions {
 	return []engine.ExecutionOptions{engine.WithAuthorizer(a), engine.WithPreFetchFieldAuthorizer(a)}
 }
 
+// judgeDefer: the incremental delivery transport. Whatever the frames look like,
+// none of them may carry a value of a denied coordinate.
+func judgeDefer(lab *fedlab.Lab, q string, deny map[string]bool, mode string, sentinels map[string][]string) []fail {
+	a := &authz{deny: deny}
+	ctx, cancel := context.WithTimeout(context.Background(), 30*time.Second)
+	defer cancel()
+	w, _, err := lab.ExecStream(ctx, q, "", nil, authOptions(a, mode)...)
+	var fails []fail
+	if err != nil {
+		return []fail{{"a response is returned", "Execute returned an error (deferred operation)", q + ": " + err.Error()}}
+	}
+	all := strings.Join(w.Frames, "\n") + strings.Join(w.Errors, "\n")
+	for c := range deny {
+		for _, s := range sentinels[c] {
+			if strings.Contains(all, s) {
+				fails = append(fails, fail{"a response never contains a non-null value at a position whose field coordinate was denied (incremental payload)", "sentinel of " + c + " in a frame of a deferred operation", fmt.Sprintf("operation %s\nsentinel %s found in\n%s", q, s, all)})
+			}
+		}
+	}
+	return fails
+}
+
 // judgeSub: the subscription transport. Every update frame is compared with the
 // reference executor's answer for that event with denied coordinates erroring.
 func judgeSub(f *family, lab *fedlab.Lab, q string, doc *gast.QueryDocument, deny map[string]bool, mode string, sentinels map[string][]string) (string, []fail) {
@@ -645,6 +667,16 @@ func TestCheck(t *testing.T) {
 							}
 							run.Eval(1)
 							outcome, fails := judge(f, lab, q, deny, mode, sent, keyFields)
+							// the @defer transport: one protected group, denied; the operation with
+							// @defer at every single field site; no frame may carry a sentinel of the
+							// denied coordinates
+							if len(pset) == 1 && mask == 1 && op.Kind == "query" && op.Raw == "" && rin == nil {
+								for _, dv := range fedlab.DeferVariants(op, 1) {
+									run.Eval(1)
+									run.Count("defer_variants", 1)
+									fails = append(fails, judgeDefer(lab, dv.String(), deny, mode, sent)...)
+								}
+							}
 							if rin != nil {
 								fmt.Printf("operation %s\nprotected %v deny %v mode %s\noutcome %s\n", q, prot, dl, mode, outcome)
 								for _, r := range lab.Sim.Log() {
